@@ -982,9 +982,9 @@ func (x *c16Runner) directionA(k *c16Case) {
 			}
 			if model != realTok {
 				r.violate(Violation{Kind: "correspondence", Key: kk.key("convert-model-mismatch"),
-					What:   "convertToExp(+BuildCallAst split wrapping) differs from the Lean model's buildBinding",
-					Input:  map[string]interface{}{"param": idS, "type": tt, "split": split, "json": rawS, "case": kk.input()},
-					Impl:   realTok, Model: model,
+					What:  "convertToExp(+BuildCallAst split wrapping) differs from the Lean model's buildBinding",
+					Input: map[string]interface{}{"param": idS, "type": tt, "split": split, "json": rawS, "case": kk.input()},
+					Impl:  realTok, Model: model,
 					Broken: "correspondence C16.binding (Martian.Invocation.buildBinding)"})
 				return
 			}
@@ -992,9 +992,9 @@ func (x *c16Runner) directionA(k *c16Case) {
 				mj := strings.SplitN(parts[1], " ", 2)
 				if len(mj) == 2 && mj[1] != realJ {
 					r.violate(Violation{Kind: "correspondence", Key: kk.key("encode-model-mismatch"),
-						What:   "MarshalJSON of the converted expression differs from the Lean model's encodeArg",
-						Input:  map[string]interface{}{"param": idS, "type": tt, "split": split, "json": rawS},
-						Impl:   realJ, Model: mj[1],
+						What:  "MarshalJSON of the converted expression differs from the Lean model's encodeArg",
+						Input: map[string]interface{}{"param": idS, "type": tt, "split": split, "json": rawS},
+						Impl:  realJ, Model: mj[1],
 						Broken: "correspondence C16.binding (Martian.Invocation.encodeArg)"})
 				}
 			}
@@ -1022,7 +1022,7 @@ func (x *c16Runner) directionA(k *c16Case) {
 	var d2 *core.InvocationData
 	if pan := c16Recover(func() { d2, err = core.InvocationDataFromSource([]byte(src), k.MroPaths) }); pan != nil {
 		r.violate(Violation{Kind: "property", Key: k.key("reparse-panic"),
-			What: fmt.Sprintf("InvocationDataFromSource panics on generated source: %v", pan),
+			What:  fmt.Sprintf("InvocationDataFromSource panics on generated source: %v", pan),
 			Input: k.input(), Impl: src})
 		return
 	}
@@ -1037,7 +1037,7 @@ func (x *c16Runner) directionA(k *c16Case) {
 	}
 	if !allPrintable {
 		r.violate(Violation{Kind: "correspondence", Key: k.key("printable-model-mismatch"),
-			What: "model says a split binding is not expressible in MRO text, yet the generated source parsed",
+			What:  "model says a split binding is not expressible in MRO text, yet the generated source parsed",
 			Input: k.input(), Impl: src, Broken: "correspondence Arg.printable"})
 	}
 	expSplit := []string{}
@@ -1085,7 +1085,7 @@ func (x *c16Runner) directionA(k *c16Case) {
 		src3, err = d3.BuildCallSource(k.MroPaths)
 	}); pan != nil || err != nil {
 		r.violate(Violation{Kind: "property", Key: k.key("second-build"),
-			What: fmt.Sprintf("regenerated invocation data cannot be turned into source and back again: %v %v", pan, err),
+			What:  fmt.Sprintf("regenerated invocation data cannot be turned into source and back again: %v %v", pan, err),
 			Input: k.input(), Impl: src})
 		return
 	}
@@ -1155,9 +1155,9 @@ func (x *c16Runner) directionB(k *c16Case, params []c16Field, bound map[string]*
 			x.ask([]string{"C16.encode", et}, func(rep string) {
 				if rep != realJ {
 					r.violate(Violation{Kind: "correspondence", Key: kk.key("B-encode-model-mismatch"),
-						What: "MarshalJSON of a parsed expression differs from the Lean model's encode",
+						What:  "MarshalJSON of a parsed expression differs from the Lean model's encode",
 						Input: map[string]interface{}{"param": id, "exp": et, "case": kk.input()},
-						Impl: realJ, Model: rep, Broken: "correspondence C16.encode (Martian.Invocation.encode)"})
+						Impl:  realJ, Model: rep, Broken: "correspondence C16.encode (Martian.Invocation.encode)"})
 				}
 			})
 			// well-typedness of the literal as the model defines it (non-vacuity of convert_encode)
@@ -1186,7 +1186,7 @@ func (x *c16Runner) directionB(k *c16Case, params []c16Field, bound map[string]*
 	var src1 string
 	if pan := c16Recover(func() { src1, err = d1.BuildCallSource(k.MroPaths) }); pan != nil || err != nil {
 		r.violate(Violation{Kind: "property", Key: k.key("B-build"),
-			What: fmt.Sprintf("data obtained from valid call text cannot be turned back into text: %v %v", pan, err),
+			What:  fmt.Sprintf("data obtained from valid call text cannot be turned back into text: %v %v", pan, err),
 			Input: k.input()})
 		return
 	}
